@@ -50,6 +50,44 @@ theorem emission_order_ready (p : Prog) (h : progReady p = true) :
   refine ⟨st, hst, ?_, hclosed⟩
   rw [hruns, constPositions_lowerProg p _ (layout_of_helpersFirst p _ ho)]
 
+/-- The same from the reference graph, for every dependency graph: take any
+graph `g` and components the verified checker accepts (`validOrder`, what every
+run establishes for the real `tarjan`) with the two cycle tests passed; let the
+script items be `mirItems g comps.flatten` — the order `find_compilation_order`
+returns — with the script functions and constants each one mentions as its
+references (`progOfGraph`; which generated functions an item uses and which
+drop function a constant has are arbitrary, as long as they exist).  Then the
+list `Lowerer::program` emits in the order read from the source makes the code
+generator's loop complete, and the initialisers run once each, in that order,
+each with everything it can reach defined and every constant it needs already
+evaluated. -/
+theorem emission_ready_for_every_graph (g : Graph) (comps : List (List Nat))
+    (hv : validOrder g comps = true) (hc : NoConstCycle g comps)
+    (clones drops eqs : List HItem) (helpersOf : Nat → List (EmitGroup × Nat)) (dropOf : Nat → Nat)
+    (hH : (clones ++ drops ++ eqs).all (fun x => x.refs.all
+      (helperOk (progOfGraph g comps.flatten clones drops eqs helpersOf dropOf))) = true)
+    (hS : ∀ n, (helpersOf n).all (helperOk (progOfGraph g comps.flatten clones drops eqs helpersOf dropOf)) = true
+      ∧ dropOf n < drops.length) :
+    ∃ st, cgLir (lowerProg (progOfGraph g comps.flatten clones drops eqs helpersOf dropOf)
+        RotoV.Gen.C14Emit.programOrder) = .ok st ∧
+      st.runs.map Prod.fst =
+        (sConstIdx 0 (progOfGraph g comps.flatten clones drops eqs helpersOf dropOf).items).map
+          ((clones.length + drops.length + eqs.length) + ·) :=
+  let ⟨st, h1, h2, _⟩ := emission_order_ready _
+    (progReady_of_topo (RotoV.Tarjan.validOrder_sound g comps hv) hc clones drops eqs helpersOf dropOf hH hS)
+  ⟨st, h1, h2⟩
+
+/-- non-vacuity of the graph form: `K0 → f1 → K2` (the constant `K0` calls `f1`, which reads `K2`),
+components `[[2], [1], [0]]`, one drop function: `K2` is evaluated before `K0` -/
+example : validOrder ⟨[(0, [1]), (1, [2]), (2, [])], fun n => if n = 1 then .func else .const⟩ [[2], [1], [0]] = true := by
+  decide
+example : (cgLir (lowerProg (progOfGraph ⟨[(0, [1]), (1, [2]), (2, [])], fun n => if n = 1 then .func else .const⟩
+    [2, 1, 0] [] [⟨[]⟩] [] (fun _ => []) (fun _ => 0)) RotoV.Gen.C14Emit.programOrder)).map
+      (fun st => st.runs.map Prod.fst) = .ok [1, 3] := by decide
+/-- … and in declaration order `[0, 1, 2]` the loop stops at `K0` -/
+example : cgLir (lowerProg (progOfGraph ⟨[(0, [1]), (1, [2]), (2, [])], fun n => if n = 1 then .func else .const⟩
+    [0, 1, 2] [] [⟨[]⟩] [] (fun _ => []) (fun _ => 0)) RotoV.Gen.C14Emit.programOrder) = .error .panic := by decide
+
 /-- non-vacuity: one clone, one drop function; `f0`, `K1 = … f0() … clone …`, `f2` reading `K1` -/
 example : progReady ⟨[⟨[]⟩], [⟨[(.clones, 0)]⟩], [],
     [⟨false, 0, [], [], []⟩, ⟨true, 0, [(.clones, 0)], [0], []⟩, ⟨false, 0, [], [0], [1]⟩]⟩ = true := by decide
